@@ -2,6 +2,7 @@ package main
 
 import (
 	"fmt"
+	"go/token"
 	"go/types"
 	"math/big"
 	"sort"
@@ -81,7 +82,12 @@ func (x *Exec) call(st *State, v *ssa.Call) bool {
 			panic(unsupported("invoke on non-interface value"))
 		}
 		detail := x.detailOr(fr.fn, v.Pos(), "call", cn.name)
-		x.check(st, "nil", "invoke "+detail, v, b.Ne(iv.Typ, b.Int(0)), "method call on nil interface")
+		if x.contract != nil && x.contract.HeapNonNil && iv.Typ.Op == "select" {
+			x.notes["pointers and interfaces loaded from memory are assumed non-nil (heapnonnil sweep contract)"] = true
+			st.assume(b.Ne(iv.Typ, b.Int(0)))
+		} else {
+			x.check(st, "nil", "invoke "+detail, v, b.Ne(iv.Typ, b.Int(0)), "method call on nil interface")
+		}
 		if iv.Dyn != nil {
 			// statically known dynamic type
 			sel := x.prog.Prog.MethodSets.MethodSet(iv.Dyn).Lookup(c.Method.Pkg(), c.Method.Name())
@@ -128,12 +134,37 @@ func (x *Exec) call(st *State, v *ssa.Call) bool {
 	if ok && fv.Fn != nil {
 		return x.callFunc(st, v, fv.Fn, args, fv.Bindings, cn)
 	}
-	// call through a function-typed parameter with a contract attached by "fnspec"
-	if p, isParam := c.Value.(*ssa.Parameter); isParam && fr.contract != nil {
-		if key := fr.contract.FnSpecs[p.Name()]; key != "" {
+	// call through a function-typed parameter or struct field with a contract attached by "fnspec",
+	// or through a value of a named function type with a "functype:<pkg>.<Type>" contract
+	fnName, fnKey := "", ""
+	if p, isParam := c.Value.(*ssa.Parameter); isParam {
+		fnName = p.Name()
+	} else if u, isLoad := c.Value.(*ssa.UnOp); isLoad && u.Op == token.MUL {
+		if fa, isFA := u.X.(*ssa.FieldAddr); isFA {
+			if pt, isPtr := fa.X.Type().Underlying().(*types.Pointer); isPtr {
+				if sst, _ := structOf(pt.Elem()); sst != nil {
+					fnName = sst.Field(fa.Field).Name()
+				}
+			}
+		}
+	}
+	if fnName != "" && fr.contract != nil {
+		fnKey = fr.contract.FnSpecs[fnName]
+	}
+	if fnKey == "" {
+		if n, isNamed := c.Value.Type().(*types.Named); isNamed && n.Obj().Pkg() != nil {
+			k := "functype:" + n.Obj().Pkg().Path() + "." + n.Obj().Name()
+			if x.db.Funcs[k] != nil {
+				fnKey, fnName = k, n.Obj().Name()
+			}
+		}
+	}
+	if fnKey != "" {
+		{
+			key, p := fnKey, c.Value
 			ct := x.db.Funcs[strings.TrimPrefix(key, "std:")]
 			if ct == nil {
-				specFail("fnspec %s: unknown contract %s", p.Name(), key)
+				specFail("fnspec %s: unknown contract %s", fnName, key)
 			}
 			sig := p.Type().Underlying().(*types.Signature)
 			var names []string
@@ -184,6 +215,11 @@ func (x *Exec) shouldAutoInline(fn *ssa.Function, depth int) bool {
 		return false
 	}
 	if fn.Pkg == nil || !strings.HasPrefix(fn.Pkg.Pkg.Path(), modPath) {
+		return false
+	}
+	// only helpers of the package under verification (and the byte-order helpers) are inlined
+	// without being asked for; everything else needs a contract or is havocked
+	if x.fn != nil && x.fn.Pkg != nil && fn.Pkg != x.fn.Pkg && !strings.HasSuffix(fn.Pkg.Pkg.Path(), "/internal/byteorder") {
 		return false
 	}
 	if len(x.loopsOf(fn)) > 0 {
@@ -743,6 +779,15 @@ func (x *Exec) havocLoc(st *State, l Loc) {
 		return
 	}
 	ees := arrElem(es)
+	if k, ok := d.Int64(); ok && k <= 8 {
+		// a few cells: plain stores of fresh values (no quantified frame needed)
+		arr := b.Select(cur, l.Obj)
+		for i := int64(0); i < k; i++ {
+			arr = b.Store(arr, b.Add(l.Lo, b.Int(i)), b.Fresh(l.Heap+"@modc", ees))
+		}
+		st.setHeap(l.Heap, b.Store(cur, l.Obj, arr), l.Obj)
+		return
+	}
 	arr := b.Select(cur, l.Obj)
 	na := b.Fresh(l.Heap+"@mod", es)
 	i := b.Var("i!m", SInt)
